@@ -9,7 +9,7 @@ tie:     correspondence of the extracted impl_read with gd_getdata64 of the
 search:  every query is judged against spec_window; a difference is a
          violation whose key is the defect class (the violated `covered`
          clause), so only listed classes are downgraded to KNOWN-FINDING."""
-import sys, os, struct, json, shutil, subprocess, time
+import sys, os, struct, json, shutil, subprocess, time, copy
 from concurrent.futures import ThreadPoolExecutor
 sys.path.insert(0, os.path.join(os.path.dirname(os.path.abspath(__file__)), "..", "bin"))
 import vlib
@@ -33,6 +33,7 @@ TAGKEY = {
 SMALL_BUFFERS = ("-DGD_VERIF_BUFFER_SIZE=64 -DGD_VERIF_BZIP_BUFFER_SIZE=64 -DGD_VERIF_LZMA_DATA_OUT=64 "
                  "-DGD_VERIF_LZMA_DATA_IN=32 -DGD_VERIF_LZMA_LOOKBACK=16")
 K_CACHENEG = "getdata/mplex-cache-seeded-before-sample-zero"
+K_LUTDESC = "getdata/linterp-descending-table-not-sorted"
 TAGPRIO = ["alloczero", "mplexseek", "unaligned", "mplexrate", "rawpad"]
 
 
@@ -106,7 +107,7 @@ class Case:
             off = rng.randrange(per)
             return [(i + off) % per for i in range(n)]
         if style == "ramp":
-            return [i + 1 for i in range(n)]
+            return [i % 97 + 1 for i in range(n)]
         lo, hi = (0, 40) if t in (1, 3, 5, 7) else (-20, 40)
         vals = [rng.randint(lo, hi) for _ in range(n)]
         if t >= 8 and rng.random() < 0.4:
@@ -292,6 +293,8 @@ class Case:
                 fld = (nm, "phase", x[2] + 1, x[3], x[4], x[5], x[6], x[7])
                 if x[0] in getattr(self, "scalar_phase", set()):
                     self.scalar_phase = self.scalar_phase | {nm}
+                if x[0] in getattr(self, "descdep", set()):
+                    self.descdep = self.descdep | {nm}
                 self.fields.append(fld)
                 return fld
             a = shifted(a)
@@ -403,6 +406,12 @@ class Case:
                 rng.shuffle(order)
             self.files[tn] = "".join("%s %s\n" % (fmtd(xs[i]), fmtd(ys[i])) for i in order).encode()
             srt = sorted(range(rows), key=lambda i: xs[i])
+            # a table whose file lists strictly falling abscissae is kept as listed by the library
+            # (K_LUTDESC): such a case is also run with the same points listed ascending, see run_cases
+            if all(xs[order[i]] > xs[order[i + 1]] for i in range(rows - 1)):
+                self.desc_tables = dict(getattr(self, "desc_tables", {}))
+                self.desc_tables[tn] = "".join("%s %s\n" % (fmtd(xs[i]), fmtd(ys[i])) for i in srt).encode()
+                self.descdep = getattr(self, "descdep", set()) | {name}
             xs, ys = [xs[i] for i in srt], [ys[i] for i in srt]
             line = "%s LINTERP %s %s" % (name, a[0], tn)
             d = "def %s linterp %s %d %s" % (name, a[0], rows, " ".join("%x %x" % (dbits(x), dbits(y)) for x, y in zip(xs, ys)))
@@ -411,6 +420,8 @@ class Case:
         ins = [a] + ([b] if two else []) + ([c] if kind == "lincom3" else [])
         mixed = any(x[6] for x in ins) or any(x[3] != a[3] for x in ins)
         hasmplex = kind == "mplex" or any(x[7] for x in ins)
+        if any(x[0] in getattr(self, "descdep", set()) for x in ins):
+            self.descdep = self.descdep | {name}
         if any(x[0] in getattr(self, "scalar_phase", set()) for x in ins):
             self.scalar_phase = getattr(self, "scalar_phase", set()) | {name}
         self.fields.append((name, kind, depth, a[3], intish, safe, mixed, hasmplex))
@@ -422,6 +433,13 @@ class Case:
         frags = [main]
         if not self.simple and rng.random() < 0.5:
             frags.append({"fo": rng.choice([0, 1, 2, 3, 5]), "big": rng.random() < 0.5, "lines": [], "enc": rng.choice(encs)})
+        # region: the frame offset of one fragment is changed on the open handle (gd_alter_frameoffset, no
+        # recoding): the files carry fo_file, the handle -- and the model -- the new value
+        self.alter = []
+        if not self.simple and rng.random() < 0.15:
+            k = rng.randrange(len(frags))
+            frags[k]["fo_file"] = rng.choice([v for v in (0, 1, 2, 4, 6) if v != frags[k]["fo"]])
+            self.alter = [(k, frags[k]["fo"])]
         nraw = rng.choice([2, 3, 3, 4, 5])
         for i in range(nraw):
             self.add_raw(frags[i % len(frags)] if i else main)
@@ -430,20 +448,22 @@ class Case:
         for _ in range(nder):
             self.add_derived(main)
         hdr = ["/ENCODING %s" % main["enc"], "/ENDIAN little"]
-        if main["fo"]:
-            hdr.append("/FRAMEOFFSET %d" % main["fo"])
+        if main.get("fo_file", main["fo"]):
+            hdr.append("/FRAMEOFFSET %d" % main.get("fo_file", main["fo"]))
         # RAW of included fragments must exist before use: INCLUDE first
         inc = []
         for k, fr in enumerate(frags[1:]):
             fn = "sub%d.format" % k
             sl = ["/ENCODING %s" % fr["enc"], "/ENDIAN %s" % ("big" if fr["big"] else "little")]
-            sl.append("/FRAMEOFFSET %d" % fr["fo"])      # explicit: an included fragment inherits the parent's otherwise
+            sl.append("/FRAMEOFFSET %d" % fr.get("fo_file", fr["fo"]))      # explicit: an included fragment inherits the parent's otherwise
             self.files[fn] = ("\n".join(sl + fr["lines"]) + "\n").encode()
             inc.append("/INCLUDE %s" % fn)
         self.files["format"] = ("\n".join(hdr + inc + main["lines"] + ["/REFERENCE %s" % self.ref[1]]) + "\n").encode()
 
     def format_text(self):
         t = self.files["format"].decode()
+        for (k, fo) in getattr(self, "alter", None) or []:
+            t = "(opened GD_RDWR, then gd_alter_frameoffset64(D, %d, fragment %d, 0) before any other call)\n" % (fo, k) + t
         for k in sorted(self.files):
             if k.startswith("sub"):
                 t += "---- %s ----\n%s" % (k, self.files[k].decode())
@@ -485,6 +505,13 @@ class Case:
             qs += [(f[0], rt, s, n), (f[0], rt, s, k), (f[0], rt, s + k, n - k)]
             self.splits.append((i0, i0 + 1, i0 + 2, k))
         return qs
+
+
+def open_lines(c):
+    """harness lines that open the case: a case with c.alter is opened read-write and the frame offset of
+    one fragment is changed on the handle (gd_alter_frameoffset, data files untouched) before anything else"""
+    al = getattr(c, "alter", None) or []
+    return (["W %s" % c.dir] + ["A %d %d" % a for a in al] if al else ["O %s" % c.dir]) + ["L %d" % getattr(c, "lb", -1)]
 
 
 def run_stream(cmd, data, env=None):
@@ -592,7 +619,7 @@ HENV = {"MALLOC_PERTURB_": "85", "MALLOC_CHECK_": "3"}
 CRASH = {"err": 0, "count": -1, "vals": [], "over": False, "crash": True}
 
 
-def run_cases(cases, exe, drv, root, jobs=16, want_extents=False):
+def run_cases(cases, exe, drv, root, jobs=16, want_extents=False, _twin=False):
     """runs every case on the harness and on the model driver; fills
     c.open_err, c.res = [(query, impl, model, spec, tags)], c.ext, c.nfr, c.crashed"""
     for c in cases:
@@ -604,8 +631,7 @@ def run_cases(cases, exe, drv, root, jobs=16, want_extents=False):
     def impl_job(ch):
         lines = []
         for c in ch:
-            lines.append("O %s" % c.dir)
-            lines.append("L %d" % getattr(c, "lb", -1))
+            lines += open_lines(c)
             if want_extents:          # also before any read: the extents must not depend on what was read before
                 for f in c.fields:
                     lines.append("E %s" % f[0])
@@ -647,8 +673,11 @@ def run_cases(cases, exe, drv, root, jobs=16, want_extents=False):
         for c, bl in zip(ch, blocks):
             c.crashed = bl[-1].startswith("X ")
             body = bl[:-1]
-            c.open_err = body[0].split()[1] if body and body[0].startswith("O ") else "crash"
-            ip = 2          # "O ..", "L"
+            c.open_err = body[0].split()[1] if body and body[0][:2] in ("O ", "W ") else "crash"
+            ip = len(open_lines(c))          # "O ..", ("A ..",) "L"
+            for l in body[1:ip - 1]:
+                if l != "A 0" and c.open_err == "0":
+                    c.open_err = "alter_frameoffset: " + l
             c.ext0 = []
             if want_extents:
                 for f in c.fields:
@@ -682,14 +711,15 @@ def run_cases(cases, exe, drv, root, jobs=16, want_extents=False):
             tainted = any(r[1]["over"] for r in c.res)
             # with a finite look-back the documented result of a read also depends on the start value a
             # previous read may have cached (gd_getdata(3)); those cases are judged call by call on fresh handles
-            if c.crashed or tainted or getattr(c, "lb", -1) != -1:
+            c.isolated = bool(c.crashed or tainted or getattr(c, "lb", -1) != -1)
+            if c.isolated:
                 crashed.append(c)
     # second pass: every query of a crashed case in its own process
     if crashed:
         lines = []
         for c in crashed:
             for (f, rt, s, n) in c.qs:
-                lines += ["O %s" % c.dir, "L %d" % getattr(c, "lb", -1), "G %s %d %d %d" % (f, rt, s, n), "C"]
+                lines += open_lines(c) + ["G %s %d %d %d" % (f, rt, s, n), "C"]
         rc, out = run_stream([exe], "\n".join(lines) + "\n", env=HENV)
         blocks = impl_blocks(out)
         bi = 0
@@ -701,12 +731,45 @@ def run_cases(cases, exe, drv, root, jobs=16, want_extents=False):
                 bi += 1
                 if mm is None:
                     continue
-                if bl[-1].startswith("X ") or len(bl) < 4:
+                no = len(open_lines(c))
+                if bl[-1].startswith("X ") or len(bl) < no + 2:
                     im = dict(CRASH)
                     c.single_crash += 1
                 else:
-                    im = parse_impl(bl[2]) or dict(CRASH)
+                    im = parse_impl(bl[no]) or dict(CRASH)
                 c.res.append((q, im, mm[0], mm[1], mm[2]))
+    # The order of the rows of a LINTERP table carries no meaning (dirfile-format(5): "values are linearly
+    # interpolated between the points specified in the lookup table").  A case with a table listed in
+    # falling order is run a second time with the same points listed ascending; it is judged on the
+    # ascending copy, and every call whose result differs between the two copies is kept in c.rowdep
+    # (judge reports it: K_LUTDESC where the field reads through such a table, a violation elsewhere)
+    desc = [c for c in cases if getattr(c, "desc_tables", None)] if not _twin else []
+    if desc:
+        twins = []
+        for c in desc:
+            t = copy.copy(c)
+            t.idx = c.idx + 50000000
+            t.files = dict(c.files)
+            t.files.update(c.desc_tables)
+            t.desc_tables = None
+            twins.append(t)
+        problems += run_cases(twins, exe, drv, root, jobs, want_extents, _twin=True)
+        for c, t in zip(desc, twins):
+            c.rowdep = []
+            if (c.open_err != t.open_err or len(c.res) != len(t.res) or len(t.res) != len(t.qs)
+                    or getattr(c, "isolated", False) != getattr(t, "isolated", False)):
+                c.rowdep.append((None, {"open": c.open_err, "crashed": c.crashed, "results": len(c.res), "isolated": getattr(c, "isolated", None)},
+                                 {"open": t.open_err, "crashed": t.crashed, "results": len(t.res), "isolated": getattr(t, "isolated", None)}))
+            else:
+                for qi, (ro, rt) in enumerate(zip(c.res, t.res)):
+                    if ro[1] != rt[1]:
+                        c.rowdep.append((qi, ro[1], rt[1]))
+            c.files_as_listed = c.files
+            for a in ("files", "dir", "res", "mres", "ext0", "ext", "nfr", "open_err", "crashed", "single_crash"):
+                if hasattr(t, a):
+                    setattr(c, a, getattr(t, a))
+                elif hasattr(c, a):
+                    delattr(c, a)
     return problems
 
 
@@ -716,6 +779,7 @@ def replay_of(c, q, im, model, spec, tags):
             "tables": {k: v.decode() for k, v in c.files.items() if k.endswith(".txt")},
             "query": {"field": q[0], "return_type": TYPES[q[1]], "first_sample": q[2], "num_samples": q[3]},
             "impl": im, "spec": spec, "model": model, "uncovered_clauses": tags, "model_case": c.drv,
+            "harness_open": open_lines(c),
             "how": "write the files into a directory, then: printf 'O <dir>\\nG %s %d %d %d\\n' | harness/C01/rd (values are hex bit patterns of the return type)" % (q[0], q[1], q[2], q[3])}
 
 
@@ -732,6 +796,31 @@ def judge(chk, cases, stats, exe=None):
             if True:
                 chk.violation("getdata/crash/sequence", "a sequence of gd_getdata calls crashes the process although no single call does\n" + c.format_text(),
                               {"kind": "crash", "format": c.format_text(), "queries": c.qs})
+        # results that change when the rows of a LINTERP table are listed in another order
+        for (qi, as_listed, ascending) in getattr(c, "rowdep", []):
+            if qi is None:
+                key = "getdata/table-row-order/run-differs"
+                if key not in seen_keys:
+                    seen_keys[key] = 1
+                    chk.violation(key, "the run of a dirfile changes (open error, crash, heap damage) when the rows of a LINTERP table are listed ascending "
+                                       "instead of descending: as listed %s, ascending %s\n%s" % (as_listed, ascending, c.format_text()),
+                                  {"kind": "table-row-order", "format": c.format_text(), "as_listed": as_listed, "ascending": ascending,
+                                   "tables_as_listed": {k: v.decode() for k, v in c.files_as_listed.items() if k.endswith(".txt")}, "queries": c.qs})
+                continue
+            q, _, model, spec, tags = c.res[qi]
+            kind = c.fields[[f[0] for f in c.fields].index(q[0])][1]
+            key = K_LUTDESC if q[0] in getattr(c, "descdep", set()) else "getdata/table-row-order/unrelated-field/%s" % kind
+            stats["bykey"][key] = stats["bykey"].get(key, 0) + 1
+            if key not in seen_keys:
+                seen_keys[key] = 1
+                rp = replay_of(c, q, as_listed, model, spec, tags)
+                rp["tables"] = {k: v.decode() for k, v in c.files_as_listed.items() if k.endswith(".txt")}
+                rp["impl_with_rows_listed_ascending"] = ascending
+                rp["earlier_calls_on_the_handle"] = [r[0] for r in c.res[:qi]]
+                chk.violation(key, "gd_getdata(%s, first_sample=%d, n=%d, %s) returns count=%d %s with the LINTERP table as listed (falling x) and count=%d %s with the same "
+                                   "points listed ascending; the Standards (interpolation between the points of the table) give count=%d %s\n%s\ntables as listed: %s" % (
+                    q[0], q[2], q[3], TYPES[q[1]], as_listed["count"], as_listed["vals"][:8], ascending["count"], ascending["vals"][:8],
+                    spec["count"], spec["vals"][:8], c.format_text(), rp["tables"]), rp)
         # window-split independence on the implementation itself
         if len(getattr(c, "res", [])) == len(c.qs):
             for (i0, i1, i2, k) in getattr(c, "splits", []):
@@ -792,7 +881,7 @@ def judge(chk, cases, stats, exe=None):
                     extra = ""
                     # is it the call, or what earlier calls on this handle left behind?  Ask a fresh handle.
                     if exe is not None and os.path.isdir(getattr(c, "dir", "")):
-                        rc, out = run_stream([exe], "O %s\nL %d\nG %s %d %d %d\nC\n" % (c.dir, getattr(c, "lb", -1), q[0], q[1], q[2], q[3]), env=HENV)
+                        rc, out = run_stream([exe], "\n".join(open_lines(c)) + "\nG %s %d %d %d\nC\n" % (q[0], q[1], q[2], q[3]), env=HENV)
                         ls = [l for l in out.split("\n") if l.startswith("G ")]
                         alone = parse_impl(ls[0]) if ls else None
                         if alone is not None and same(alone, spec, n, False):
@@ -833,7 +922,7 @@ def judge(chk, cases, stats, exe=None):
                 # decide on the call alone, on a fresh handle
                 alone = None
                 if exe is not None and os.path.isdir(getattr(c, "dir", "")):
-                    rc, out = run_stream([exe], "O %s\nL %d\nG %s %d %d %d\nC\n" % (c.dir, getattr(c, "lb", -1), q[0], q[1], q[2], q[3]), env=HENV)
+                    rc, out = run_stream([exe], "\n".join(open_lines(c)) + "\nG %s %d %d %d\nC\n" % (q[0], q[1], q[2], q[3]), env=HENV)
                     ls = [l for l in out.split("\n") if l.startswith("G ")]
                     alone = parse_impl(ls[0]) if ls else None
                 if alone is None or not same(alone, model, n, True):
@@ -1059,6 +1148,16 @@ def witness_cases(rng):
            [("p", 9, 0, 4), ("x", 9, 2, 3)])
     c.files["i"] = b"".join(struct.pack("<i", v) for v in i8b)
     W.append(c)
+    # a LINTERP table listed with falling x is used as listed (K_LUTDESC; confirmed by run_cases/judge, which read
+    # the same points listed ascending as well)
+    a4 = [5, 15, 25, 35]
+    c = mk(900011, "a RAW FLOAT64 1\nl LINTERP a table.txt\n", {"a": a4},
+           ["raw 0 9 1 0 4 " + h(a4), "def a raw 0", "def l linterp a 3 " + " ".join("%x %x" % (dbits(x), dbits(y)) for x, y in [(10, 0), (20, 10), (30, 0)])],
+           [("l", 9, 0, 4)])
+    c.files["table.txt"] = b"30 0\n20 10\n10 0\n"
+    c.desc_tables = {"table.txt": b"10 0\n20 10\n30 0\n"}
+    c.descdep = {"l"}
+    W.append(c)
     return W
 
 
@@ -1088,7 +1187,7 @@ def main():
     chk.assumptions += [
         "counts are far below GD_TRANSACTION_MAX and 2^31 (the (int) cast of num_samp2 and the 2^63 range checks are not modelled)",
         "real-valued data only (no COMPLEX64/128 RAW, no complex scalars, no representation suffixes)",
-        "RAW files unencoded, gzip, bzip2, lzma or text per fragment (the model sees decoded samples; SIE/flac/slim/zzip not covered); LINTERP tables strictly increasing, entering the model as parsed rows",
+        "RAW files unencoded, gzip, bzip2, lzma or text per fragment (the model sees decoded samples; SIE/flac/slim/zzip not covered); LINTERP tables with distinct abscissae listed in any order, entering the model as parsed rows sorted by x (a table listed in falling order is also run listed ascending and judged on that copy; differences between the two runs are reported)",
         "MPLEX look-back per case: unlimited, 0, 1, 2 or 10 cycles (gd_mplex_lookback); the last-sample cache is not modelled: with an unlimited look-back each query is also correct without it (sequences on one handle check that), with a finite one the documented result depends on it and every call is made on a fresh handle",
         "first_sample >= 0 at the public entry (GD_HERE is C17's subject)",
         "samples at negative positions reaching an MPLEX are implementation dependent by dirfile-format(5) and not judged",
@@ -1155,7 +1254,7 @@ def main():
     chk.cov["evaluations"] = stats["queries"]
     chk.cov["distinct_nontrivial"] = len([s for s in stats["sigs"] if s[1] > 0 or s[2] > 0])
     chk.cov["rule"] = ("random dirfiles (2-5 RAW fields of all ten real types, spf from {1,2,3,4,5,7,12}, 0-8 frames plus partial frames, "
-                       "frame offsets 0-5, a second fragment with its own frame offset and byte order, partial trailing samples; 4-12 derived fields of "
+                       "frame offsets 0-5, a second fragment with its own frame offset and byte order, the reference field any RAW, a frame offset altered on the handle, partial trailing samples; 4-12 derived fields of "
                        "all real vector types nested up to depth %d, CONST/CARRAY scalar parameters) x windows (s,n) aligned and unaligned, "
                        "straddling BOF and EOF, return types FLOAT64/INT64/UINT64/INT32; distinct_nontrivial = distinct (violated clauses, "
                        "returned count, specified count, return type, field kind) with data returned or specified") % (6 if not chk.thorough else 12)
